@@ -289,6 +289,7 @@ def comp_of_source(src_text, src, env_terms):
     return COMP(text, src, [env_terms[n] for n in free if n in env_terms])
 
 
+LIST_MUTATORS = ('reverse', 'sort', 'append', 'extend', 'insert', 'pop', 'remove', 'clear')
 PVISH = ('pv', 'plist', 'module', 'chars', 'lazylist', 'dictlit', 'dictalt', 'func', 'truthonly', 'slice')
 TYPE_TESTS = {'is_pd', 'is_arr', 'is_df', 'is_series', 'is_ts', 'is_num', 'is_int', 'is_str', 'is_date', 'is_bool', 'is_tss', 'is_arrs'}
 NUMERIC_BUILTINS = {'len', 'min', 'max', 'abs', 'int', 'bool', 'range', 'zip', 'list', 'tuple', 'sum', 'sorted', 'set', 'enumerate', 'dict',
@@ -748,6 +749,22 @@ class Pandas:
             res = P(U(_name('M', mname, len(args), kwargs), [PV] * len(ts))(*ts))
             self.event('mcall', mname, st, recv=recv, args=list(args), kwargs=dict(kwargs), res=res)
             return res
+        if recv.kind == 'plist' and recv.tag == 'list' and mname in LIST_MUTATORS:
+            # an in-place method of a list: a frame obligation (the target must be a list made by this call, not one the caller handed in);
+            # reverse() is then modelled, the others are outside the subset
+            own = not recv.f.get('caller')
+            fr = getattr(self, 'frame_replay', None)
+            ex.oblige(st, 'frame.%s.targets_a_list_created_here' % mname, BoolVal(own), kind='frame',
+                      meta=dict(replay=fr, replay_without_model=True) if fr else None)
+            if mname == 'reverse' and not args and not kwargs and isinstance(e.func.value, ast.Name):
+                ex.use('axiom:xs.reverse() leaves xs with the same length and xs[i] == old xs[len-1-i]; other names bound to the same list are not tracked')
+                j = Int(fresh_name('j!rev'))
+                new = static_list(recv.items[::-1], recv.tag) if recv.items is not None else plist(recv.n, Lambda([j], Select(recv.arr, recv.n - 1 - j)), tag=recv.tag)
+                if recv.f.get('caller'):
+                    new.f['caller'] = True
+                st.env[e.func.value.id] = new
+                return NONE
+            raise OutOfSubset('in-place list method %s()' % mname)
         if recv.kind == 'chars' and mname in ('lower', 'upper') and not args:
             return NotImplemented
         if recv.kind == 'dictlit' and mname == 'get' and len(args) == 2 and args[0].kind == 'str' and args[0].t is None:
